@@ -76,6 +76,15 @@ var glSpecs = []glSpec{
 	{"deprecated/compactindex36", "", "hashUint64", "l36HashUint64"},
 	{"deprecated/compactindex36", "Header", "BucketHash", "l36BucketHash"},
 	{"deprecated/bucketteer", "", "searchEytzinger", "bk1SearchEytzinger"},
+	{"indexmeta", "Meta", "MarshalBinary", "metaMarshal"},
+	{"indexmeta", "Meta", "UnmarshalWithDecoder", "metaUnmarshalDec"},
+	{"indexmeta", "Meta", "UnmarshalBinary", "metaUnmarshal"},
+	{"indexmeta", "Meta", "Add", "metaAdd"},
+	{"indexmeta", "Meta", "Get", "metaGet"},
+	{"indexmeta", "Meta", "GetUint64", "metaGetUint64"},
+	{"indexmeta", "", "encodeUint64", "metaEncodeUint64"},
+	{"indexmeta", "", "decodeUint64", "metaDecodeUint64"},
+	{"indexmeta", "", "cloneBytes", "metaCloneBytes"},
 	{"slottools", "", "CalcEpochForSlot", "calcEpochForSlotM"},
 	{"slottools", "", "EpochForSlot", "epochForSlot"},
 	{"slottools", "", "Uint64ToLEBytes", "uint64ToLEBytes"},
@@ -382,7 +391,13 @@ func (g *glGen) analyse() {
 						mark(x.Args[0])
 					}
 					if qn == "io.ReadFull" {
+						mark(x.Args[0])
 						mark(x.Args[1])
+					}
+					if qn == "io.ByteReader.ReadByte" || qn == "bytes.Buffer.Write" || qn == "bytes.Buffer.WriteByte" {
+						if se, ok := x.Fun.(*ast.SelectorExpr); ok {
+							mark(se.X)
+						}
 					}
 					if c := g.funcs[cf]; c != nil {
 						for i := range x.Args {
@@ -436,7 +451,7 @@ func (g *glGen) leanTypeOK(t types.Type) (string, bool) {
 	if tp, ok := t.(*types.TypeParam); ok {
 		return tp.Obj().Name(), true
 	}
-	if isNamed(t, "bytes", "Reader") {
+	if isNamed(t, "bytes", "Reader") || isByteDecoder(t) {
 		return "Go.BytesReader", true
 	}
 	if isNamed(t, "bytes", "Buffer") {
@@ -559,7 +574,7 @@ func (g *glGen) zero(t types.Type) (string, bool) {
 	if _, ok := t.(*types.TypeParam); ok {
 		return "default", true
 	}
-	if isNamed(t, "bytes", "Reader") {
+	if isNamed(t, "bytes", "Reader") || isByteDecoder(t) {
 		return "(Go.BytesReader.mk [] 0)", true
 	}
 	if isNamed(t, "bytes", "Buffer") {
@@ -946,6 +961,10 @@ func assignedObjs(p *packages.Package, n ast.Node) map[types.Object]bool {
 			if tv, ok := p.TypesInfo.Types[x.Fun]; ok && tv.IsType() {
 				return true
 			}
+			if cf := calleeOf(p, x); cf != nil && qualName(cf) == "io.ReadFull" && len(x.Args) == 2 {
+				root(x.Args[0]) // the stream advances
+				root(x.Args[1])
+			}
 			for _, a := range x.Args {
 				switch a.(type) {
 				case *ast.Ident, *ast.SliceExpr, *ast.SelectorExpr, *ast.IndexExpr:
@@ -960,7 +979,7 @@ func assignedObjs(p *packages.Package, n ast.Node) map[types.Object]bool {
 				if sel, isCall := p.TypesInfo.Selections[se]; isCall {
 					// a method call may write through its receiver — except through an interface value (io.ReaderAt …):
 					// what the dynamic receiver does to itself is not a write to the variable holding it
-					if _, isIface := sel.Recv().Underlying().(*types.Interface); !isIface {
+					if _, isIface := sel.Recv().Underlying().(*types.Interface); !isIface || isByteDecoder(sel.Recv()) {
 						root(se.X)
 					}
 				}
@@ -1776,4 +1795,12 @@ func implementsError(t types.Type) bool {
 		}
 	}
 	return false
+}
+
+// isByteDecoder: a byte-stream decoder over an in-memory buffer that the translated code only uses through
+// ReadByte / io.ReadFull (indexmeta.Decoder = io.ByteReader + io.Reader, constructed by bin.NewBorshDecoder(b)):
+// given the meaning of *bytes.Reader.  (gagliardetto/binary's Decoder returns io.EOF / io.ErrUnexpectedEOF on short
+// input like bytes.Reader; recorded as an assumption of the ties that use it.)
+func isByteDecoder(t types.Type) bool {
+	return isNamed(t, "github.com/rpcpool/yellowstone-faithful/indexmeta", "Decoder") || isNamed(t, "github.com/gagliardetto/binary", "Decoder")
 }
